@@ -507,7 +507,7 @@ func Main(args []string) {
 			"a key introduced by a version recorded at time T is in force for a commit at T (the statement's boundary), so an unsigned commit made at the logical time the key-adding version records is expected to be rejected",
 			"RSA keys are generated once and kept in harness/props/c08/testdata/keys.json; signatures embed the wall clock, so commit hashes differ between runs while verdicts do not",
 			"altered commits: the operation pack text (tree) or the parent list is changed after signing, the signature header is kept (written with go-git plumbing on the same directory)",
-			"bounded: keys {K1,K2} plus a stranger's K3, at most 3 identity changes, one tested commit per case",
+			fmt.Sprintf("bounded: keys {K1,K2} plus a stranger's K3, at most %d identity changes, one tested commit per case", *maxLen),
 		},
 		WallS: time.Since(start).Seconds(), Violations: rep.Viol, Known: known}
 	if err := ev.Write(); err != nil {
